@@ -111,7 +111,7 @@ def run_case(case, R):
         R.hit(counter)
         if calib is not None:
             calib[name] = max(calib.get(name, 0.0), float(dev) / TOL[tol_key])
-        if dev > TOL[tol_key]:
+        if not (dev <= TOL[tol_key]):
             R.violation(f"{fam}-{name}", f"{label}, T = {T}: {what} (deviation {float(dev):.3e}, tolerance {TOL[tol_key]:.1e})", wit)
 
     cos = COSPricer(model)
